@@ -20,6 +20,11 @@ INFO = {
  'C16': ("cancel handler never runs, testcancel reports 0 after cancel returned, event handler after an on-queue cancel", "a cancel from another thread inside the load/store window of the (now non-atomic) flag update in _dispatch_source_refs_finalize_unregistration, which runs for the deferred deletion after a peer hang-up"),
  'C17': ("", ""),
  'C18': ("dispatch_assert_queue(submitting queue) crashes / assert_queue_not accepts it inside a dispatch_sync block", "dispatch_sync from an item on queue A to a busy queue Q that targets the main queue drained through _dispatch_main_queue_callback_4CF: the waiter's thread frames are no longer saved for plain sync waiters"),
+ 'C16b': ("the event handler is invoked once more after dispatch_source_cancel was called from the source's own registration handler", "a registration handler that cancels the source while an event is already pending (merge before activation, ready descriptor): the flags are loaded before the registration callout and not re-read before the latch test in _dispatch_source_invoke2"),
+ 'C11b': ("after dispatch_source_set_timer the handler fires at once with the stale count of the old settings (early, too many, old settings followed)", "the timer is out of the heap with undelivered fire data (fell behind a busy queue, fired while suspended, one-shot whose callout is still queued) when dispatch_source_set_timer is called with a future start: ds_pending_data is only cleared when the timer was armed"),
+ 'C17b': ("a source released without being cancelled is never finalised (finalizer never runs, memory leaks)", "the last dispatch_release lands while a worker is inside the source's invoke after the handler returned and before the drain lock is dropped: the wake-up no longer marks the source DIRTY, so nobody invokes it again"),
+ 'C14b': ("bytes consumed from the descriptor are not delivered to the read handler", "a stream read with bytes buffered below the low-water mark that then ends with an error (close with STOP -> ECANCELED, ECONNRESET): the buffered bytes are dropped instead of being delivered before the final invocation"),
+ 'C01b': ("a dispatch_barrier_async item and everything behind it is stranded", "concurrent queue, readers in flight, barrier at the head, drainer failed the full-width upgrade (PENDING_BARRIER) and the last reader completes before the drainer's unlock: the completing reader no longer sets DIRTY when PENDING_BARRIER is set"),
  'C19': ("a dispatch_block_cancel that has returned is undone: testcancel reports 0 and the body runs", "another thread cancels while a timed dispatch_block_wait is in progress and that wait then times out: the time-out path writes back the flag word it read on entry instead of clearing only its own bit"),
 }
 V = '/verif'
@@ -28,9 +33,9 @@ def main(pid, extra=None):
     m = re.search(r'SUMMARY %s ctest_rc=(\d+) demo_with=(\d)/3 demo_without=(\d)/3 check=rc=(\d+)' % pid, log)
     ct, dw, dwo, rc = (int(x) for x in m.groups())
     classes = re.findall(r'failure class "([^"]+)": (\d+) run', log)
-    tot = re.search(r'%s quick: (\d+) runs .* (\d+) violations' % pid, log)
+    tot = re.search(r'%s quick: (\d+) runs .* (\d+) violations' % pid[:3], log)
     meta = {
-        'property': pid,
+        'property': pid[:3], 'round': 2 if len(pid) > 3 else 1,
         'breaks': INFO[pid][0],
         'needs_to_manifest': INFO[pid][1],
         'author': 'independent sub-agent given only the property text and a scratch worktree (see NOTES.md)',
@@ -41,7 +46,7 @@ def main(pid, extra=None):
             'demonstration_without_change': '%d/3 runs failed' % dwo,
         },
         'our_check': {
-            'command': 'selftest/mutant.sh seeded/%s/patch.diff %s quick 40   (VERIF_REPO=<scratch worktree> ./check %s quick)' % (pid, pid, pid),
+            'command': 'selftest/mutant.sh seeded/%s/patch.diff %s quick 40   (VERIF_REPO=<scratch worktree> ./check %s quick)' % (pid, pid[:3], pid[:3]),
             'exit_code': rc,
             'caught': rc == 1,
             'failure_classes': [{'clause': c[:160], 'runs': int(n)} for c, n in classes],
